@@ -54,8 +54,10 @@ func localOnlyAlloc(al *ssa.Alloc) bool {
 		return false
 	}
 	switch u := pt.Elem().Underlying().(type) {
-	case *types.Array, *types.Slice, *types.Map, *types.Chan, *types.Signature, *types.Interface:
-		return false
+	case *types.Array:
+		return false // arrays live in the two-level memory
+	// (a cell holding a slice header, map, channel, function or interface value is kept like any other: what it
+	// refers to is still havocked, the non-escaping cell itself cannot be written by anyone else)
 	case *types.Struct:
 		if u.NumFields() > 24 {
 			return false
